@@ -179,7 +179,8 @@ def gen_program(rng, thorough):
     has_base = rng.chance(2, 3)
     base_vals = [(k, G.gen_literal(rng, 2, ["a", "b", "c"], STRS)) for k in rng.shuffle(ks)[: rng.below(len(ks) + 1)]] if has_base else []
     own_vals = [(k, G.gen_literal(rng, 2, ["a", "b", "c"], STRS)) for k in rng.shuffle(ks)[: 1 + rng.below(len(ks))]]
-    layers = [{k: lit_py(v) for k, v in own_vals}] + ([{k: lit_py(v) for k, v in base_vals}] if has_base else [])
+    base_merge = rng.chance(4, 5)      # merge: false keeps the base out of the fold (it stays readable under imports.base)
+    layers = [{k: lit_py(v) for k, v in own_vals}] + ([{k: lit_py(v) for k, v in base_vals}] if has_base and base_merge else [])
     view = merged_view(layers)
     targets = [(p, v) for p, v in paths_of(view) if p]
     str_targets = [(p, v) for p, v in targets if isinstance(v, str)]
@@ -300,7 +301,7 @@ def gen_program(rng, thorough):
                 claims.append("(const %s %s)" % (G.sx(dk), G.sx(x)))
     values = own_vals + derived
     envs = {"base": {"imports": [], "values": base_vals}} if has_base else {}
-    imports = [("base", rng.chance(4, 5))] if has_base else []
+    imports = [("base", base_merge)] if has_base else []
     if has_base and rng.chance(1, 2):
         # a second import (listed before or after the first): ${imports.X} denotes X's OWN value, whatever else is merged
         # keys disjoint from every other key of the program, so that the claims computed above stay valid
